@@ -1,7 +1,10 @@
 /- Native model driver for engine `heights` (C15). One op per line on stdin, one canonical observation per line on stdout.
-   `reset full=<0|1> q=<quorum>` starts a new self-contained case. -/
+   `reset full=<0|1> q=<quorum>` starts a new self-contained case.
+   `reset … fix=1` selects the model of the code WITH the candidate repairs of notes/C15.md (Ssv/Model/HeightsRepaired.lean);
+   bin/check never uses it: it is for comparing a patched tree against the repaired model by hand. -/
 import Ssv.Common.Wire
 import Ssv.Model.Heights
+import Ssv.Model.HeightsRepaired
 open Ssv Ssv.Heights Ssv.Wire
 
 def b01 (b : Bool) : String := if b then "1" else "0"
@@ -58,19 +61,21 @@ def parseOp (ws : List String) : Option Op :=
     pure (Op.decided h r root sg ok (via == "r"))
   | _ => none
 
-def stepLine (st : Option State) (line : String) : Option State × String :=
+def stepLine (st : Option (State × Bool)) (line : String) : Option (State × Bool) × String :=
   let ws := words line
   match ws with
   | "reset" :: rest =>
     match kvBool rest "full", kvNat rest "q" with
-    | some f, some q => let s := init f q; (some s, "ready " ++ showState s)
+    | some f, some q =>
+      let s := init f q
+      (some (s, (kvBool rest "fix").getD false), "ready " ++ showState s)
     | _, _ => (st, "bad-op")
   | _ =>
     match st, parseOp ws with
-    | some s, some op =>
-      let (s', o) := step s op
-      (some s', showOut o ++ " " ++ showState s')
+    | some (s, fix), some op =>
+      let (s', o) := if fix then stepR s op else step s op
+      (some (s', fix), showOut o ++ " " ++ showState s')
     | _, _ => (st, "bad-op")
 
 def main : IO Unit := do
-  loopState (← IO.getStdin) (← IO.getStdout) (none : Option State) stepLine
+  loopState (← IO.getStdin) (← IO.getStdout) (none : Option (State × Bool)) stepLine
